@@ -191,7 +191,7 @@ fn c08(model: &str, rng: &mut Rng, out: &mut CaseOut, deadline: Instant) {
     let names = bound_names(&f);
     let target = *rng.pick(&["xx", "y", "xxx", "v_1"]);
     let g = if names.is_empty() { f.clone() } else { f.rename_vars(&|v| if names.iter().any(|n| n == v) { target.to_string() } else { v.to_string() }) };
-    let style = Style { long_hybrids: rng.coin(), const_variant: rng.below(3), extra_blanks: true, redundant_parens: true };
+    let style = Style { long_hybrids: rng.coin(), const_variant: rng.below(3), extra_blanks: true, redundant_parens: true, line_breaks: false };
     let (a, b) = (f.canon(), render_styled(&g, &style, rng));
     out.key = format!("{model}|{a}|{b}");
     if Instant::now() > deadline {
